@@ -463,6 +463,7 @@ func TestVerifChanCorr(t *testing.T) {
 		out.Case("ch reset", "ok "+vfE1ChanDump(c, nil))
 		nextID := 0
 		live := map[int]*Message{} // every message object the channel may hold
+		dts0 := map[int]int64{}    // delivery time of each in-flight message as the harness saw it (not re-read)
 		ready := []int{}            // ids currently "delivered to put" and available for re-delivery
 		pick := func(m map[int]*Message) int {
 			if len(m) == 0 || r.Intn(12) == 0 {
@@ -511,6 +512,7 @@ func TestVerifChanCorr(t *testing.T) {
 				now := msg.pri - int64(to)
 				if err == nil {
 					live[id] = msg
+					dts0[id] = msg.deliveryTS.UnixNano()
 					// direct oracle: the deadline is never before delivery + timeout
 					if msg.pri < msg.deliveryTS.UnixNano()+int64(to) || msg.pri < t0+int64(to) {
 						fail(fmt.Sprintf("EARLY-DEADLINE: in-flight deadline %d is before deliveryTS+timeout = %d (msg %d, timeout %d)",
@@ -537,6 +539,7 @@ func TestVerifChanCorr(t *testing.T) {
 				c.inFlightMutex.Lock()
 				msg.deliveryTS = time.Unix(0, dts)
 				c.inFlightMutex.Unlock()
+				dts0[id] = dts
 				out.Case(fmt.Sprintf("ch setdts %d %d", id, dts), "ok "+vfE1ChanDump(c, nil))
 				hist["setdts"]++
 			case k < 12: // TouchMessage
@@ -568,6 +571,9 @@ func TestVerifChanCorr(t *testing.T) {
 					}
 					if lo := vfE1Min64(t0+int64(mt), dts+int64(maxMsg)); msg.pri < lo {
 						fail(fmt.Sprintf("EARLY-DEADLINE: TOUCH at >= %d set deadline %d, before min(now+msgTimeout, deliveryTS+MaxMsgTimeout) = %d (msg %d)", t0, msg.pri, lo, id))
+					}
+					if d0, ok := dts0[id]; ok && msg.pri > d0+int64(maxMsg) {
+						fail(fmt.Sprintf("TOUCH sequence moved the deadline of msg %d to %d, beyond its delivery time %d + MaxMsgTimeout %d", id, msg.pri, d0, int64(maxMsg)))
 					}
 					if msg.pri > dts+int64(maxMsg) {
 						fail(fmt.Sprintf("TOUCH set deadline %d beyond deliveryTS+MaxMsgTimeout = %d (msg %d, msgTimeout %d)", msg.pri, dts+int64(maxMsg), id, int64(mt)))
